@@ -126,8 +126,14 @@ def install():
 def mangled(method):
     """Attribute name under which a bound method is reachable from its instance."""
     name = method.__func__.__name__
+    obj = method.__self__
+    cand = getattr(obj, name, None)
+    if getattr(cand, '__func__', None) is method.__func__:
+        return name
     if name.startswith('__') and not name.endswith('__'):
-        qual = method.__func__.__qualname__.split('.')
-        cls = qual[-2] if len(qual) >= 2 else type(method.__self__).__name__
-        return '_' + cls.lstrip('_') + name
-    return name
+        for cls in type(obj).__mro__:
+            m = '_' + cls.__name__.lstrip('_') + name
+            cand = getattr(obj, m, None)
+            if getattr(cand, '__func__', None) is method.__func__:
+                return m
+    raise AttributeError('cannot find bound method %r on %r' % (name, type(obj).__name__))
